@@ -7,6 +7,8 @@ degenerate strings, character-level mutants, repository examples, standard-libra
 """
 from __future__ import annotations
 
+import os
+
 from .. import env, verdict
 
 PROP = "C04"
@@ -49,6 +51,16 @@ def w_total(arg):
 
     _watch_memory_errors()
     out = []
+    if any(c.get("kind") == "hostile_world" for c in arg["cases"]) and not os.path.exists("broken_syntax_mod.py"):
+        # a replay outside the check's own worker pool: build the modules in a directory of their own and go there
+        import tempfile
+
+        world = tempfile.mkdtemp(prefix="c04world-")
+        for rel, content in HOSTILE_MODULES.items():
+            os.makedirs(os.path.dirname(os.path.join(world, rel)), exist_ok=True)
+            with open(os.path.join(world, rel), "wb") as stream:
+                stream.write(content)
+        os.chdir(world)
     for case in arg["cases"]:
         text = case["text"]
         del _MEMORY_ERRORS[:]
@@ -161,13 +173,48 @@ def run_cases(p, cases, v, fn="harness.checks.c04:w_total", group_cpu=120.0):
     return results
 
 
+# modules that sit beside the text being formatted (the workers' current directory) and that the import rules will look into
+HOSTILE_MODULES = {
+    "broken_syntax_mod.py": b"def broken(:\n",
+    "latin1_mod.py": b'# -*- coding: latin-1 -*-\nname = "\xe9"\n',
+    "nul_mod.py": b"value = 1\x00\n",
+    "empty_mod.py": b"",
+    "bom_mod.py": b"\xef\xbb\xbfvalue = 1\n",
+    "weird_all_mod.py": b"__all__ = 5\nvalue = 1\n",
+    "dynamic_all_mod.py": b"__all__ = [n for n in dir() if n[0] != '_']\nvalue = 1\n__all__ += ['other']\nother = 2\n",
+    "raising_mod.py": b"value = 1\nraise RuntimeError('do not import me')\n",
+    "selfstar_mod.py": b"from selfstar_mod import *\nvalue = 1\n",
+    "cycle_a_mod.py": b"from cycle_b_mod import *\nother = 2\n",
+    "cycle_b_mod.py": b"from cycle_a_mod import *\nvalue = 3\n",
+    "deep_pkg/__init__.py": b"from .sub import *\nfrom deep_pkg.sub2 import *\n",
+    "deep_pkg/sub.py": b"def broken(:\n",
+    "deep_pkg/sub2.py": b"value = 4\n",
+    "tabs_mod.py": b"if True:\n\tvalue = 1\n        other = 2\n",
+    "huge_line_mod.py": b"value = [" + b"1, " * 20000 + b"]\n",
+}
+
+
+def hostile_world_cases():
+    cases = []
+    mods = sorted({m.split("/")[0].replace(".py", "") for m in HOSTILE_MODULES})
+    for i, mod in enumerate(mods):
+        for j, text in enumerate((f"from {mod} import *\nprint(value)\n", f"from {mod} import *\nfrom os.path import *\nprint(value, join, other)\n", f"from {mod} import value\nprint(value)\n",
+                                  f"import {mod}\nprint({mod}.value)\n", f"def use():\n    from {mod} import *\n    return value\n", f"from {mod} import value as v, other\nprint(v)\n")):
+            cases.append({"id": f"world:{mod}:{j}", "text": text, "options": OPTION_VECTORS[(i + j) % len(OPTION_VECTORS)], "kind": "hostile_world"})
+    return cases
+
+
 def main() -> int:
     from .. import pool
 
     v = verdict.Verdict(PROP)
     thorough = env.tier() == "thorough"
-    cases = build_cases(thorough)
+    cases = build_cases(thorough) + hostile_world_cases()
     scratch = env.scratch()
+    for rel, content in HOSTILE_MODULES.items():
+        path = scratch / "c04cwd" / rel
+        path.parent.mkdir(parents=True, exist_ok=True)
+        path.write_bytes(content)
     with pool.Pool(extra_env={"VERIF_WORKER_CWD": str(scratch / "c04cwd"), "VERIF_RECURSION": "1000"}) as p:
         verdict.run_witnesses(v, p)
         results = run_cases(p, cases, v)
